@@ -123,22 +123,7 @@ func (p progImporter) Import(path string) (*types.Package, error) {
 func (m *Machine) vfTypeErrors(code Value, allowed Value) Value {
 	ct := toTerm(forceLazy(code))
 	text, holes := m.skeletonOf(ct)
-	// holes are numbered per occurrence; for name resolution the same term must
-	// be the same identifier
-	canon := map[string]int{}
-	text = holeRe.ReplaceAllStringFunc(text, func(h string) string {
-		sm := holeRe.FindStringSubmatch(h)
-		if sm[2] == "" {
-			return h
-		}
-		n, _ := strconv.Atoi(sm[2])
-		key := holes[n].SMT()
-		if c, ok := canon[key]; ok {
-			return fmt.Sprintf("VFH%dH", c)
-		}
-		canon[key] = n
-		return h
-	})
+	text = canonHoles(text, holes)
 	al, ok := forceLazy(allowed).(string)
 	if !ok {
 		// symbolic parts of the list are holes, accepted below by their placeholder name
@@ -154,4 +139,35 @@ func (m *Machine) vfTypeErrors(code Value, allowed Value) Value {
 		out = append(out, e)
 	}
 	return m.stringSlice(out)
+}
+
+// vfPruneImports(text string) string: skel.PruneImports on the skeleton of
+// the text (a concrete evaluation; the holes are put back afterwards).
+func (m *Machine) vfPruneImports(code Value) Value {
+	v := forceLazy(code)
+	if cs, ok := v.(string); ok {
+		return skel.PruneImports(cs)
+	}
+	text, holes := m.skeletonOf(toTerm(v))
+	return holesToTerm(skel.PruneImports(canonHoles(text, holes)), holes)
+}
+
+// canonHoles: holes are numbered per occurrence; for name resolution the same
+// term must be the same identifier, so every hole is renamed to the first hole
+// holding an identical term.
+func canonHoles(text string, holes []*Term) string {
+	canon := map[string]int{}
+	return holeRe.ReplaceAllStringFunc(text, func(h string) string {
+		sm := holeRe.FindStringSubmatch(h)
+		if sm[2] == "" {
+			return h
+		}
+		n, _ := strconv.Atoi(sm[2])
+		key := holes[n].SMT()
+		if c, ok := canon[key]; ok {
+			return fmt.Sprintf("VFH%dH", c)
+		}
+		canon[key] = n
+		return h
+	})
 }
